@@ -54,7 +54,8 @@ fn join_accept_build(cflist: usize) {
     let mic: [u8; 4] = tape::arr();
     unsafe { LOG.mic_ret = mic; }
     let blen = tape::below(41);
-    let mut buf = [0u8; 40];
+    // the caller's output buffer holds anything beforehand: nothing of it may survive into the frame (RFU octets are zero)
+    let mut buf: [u8; 40] = tape::arr();
     let want = if cflist == 0 { 17 } else { 33 };
     let r = ja.build_into(&mut buf[..blen], &RecCrypto);
     let g = unsafe { &*(&raw const LOG) };
